@@ -127,6 +127,9 @@ class database(fs_template.FsBased):
             for l in subdirs:
                 if l.endswith(".cpickle"):
                     continue
+                if l.startswith(".update."):
+                    # temporary file of a store in progress (or of a crashed one), not an entry
+                    continue
                 p = pjoin(d, l)
                 try:
                     st = os.lstat(p)
